@@ -3,7 +3,7 @@ import QrlModel.Gen.Skeleton
 depends on must equal the digest the model was written against (tools/mk_tie.py). -/
 namespace Qrl.Tie.C04
 theorem xmss_Verify : Gen.Skel.xmss_Verify = "8e0f78463aecd2c2" := by decide
-theorem xmss_VerifyWithCustomWOTSParamW : Gen.Skel.xmss_VerifyWithCustomWOTSParamW = "957a134e9d41cefd" := by decide
+theorem xmss_VerifyWithCustomWOTSParamW : Gen.Skel.xmss_VerifyWithCustomWOTSParamW = "224d9beed85b15bb" := by decide
 theorem xmss_xmssVerifySig : Gen.Skel.xmss_xmssVerifySig = "de813c7bad02dba8" := by decide
 theorem xmss_validateAuthPath : Gen.Skel.xmss_validateAuthPath = "0e886536f6a2c4f4" := by decide
 theorem xmss_getHeightFromSigSize : Gen.Skel.xmss_getHeightFromSigSize = "5ededd66a65e0efc" := by decide
